@@ -506,4 +506,32 @@ Proof.
   exists cs, s'. split; [exact H4|]. split; [exact H5|]. split; [exact H3|]. split; [apply (c_just _ _ _ _ B)|exact A].
 Qed.
 
+(* ---------------- reading [CI] ---------------- *)
+(* at a head of the loop: every queued attempt is start + d of a record, and no clock is missing *)
+Lemma CI_read : forall acc s, CI acc s ->
+  (forall t c u v, In (t, c, MTrans (Some u) v) (q_items (ms_q s)) ->
+     exists k start d rd, In (KAtt u v k start d rd) acc /\ t = tadd start d) /\
+  (forall u v, ms_stat s u = stI -> In v (gadj g u) -> 0 < rate u v ->
+     Pend s u v \/ Dead acc s u v \/ Blocked s u v).
+Proof.
+  intros acc s [clock [_ Hc]]. split; [apply (c_q _ _ _ _ Hc)|].
+  intros u v Hu Hin Hr. apply (c_ci _ _ _ _ Hc u v (fun F => F) Hu Hin Hr).
+Qed.
+
+(* an ENABLED pair (u infectious, v susceptible): "blocked" can only mean that u's recovery is due at
+   this very instant (rec_time[u] is not later than v's last recovery, which is in the past) *)
+Lemma CI_enabled_pair : forall acc s, CI acc s ->
+  forall u v, ms_stat s u = stI -> ms_stat s v = stS -> In v (gadj g u) -> 0 < rate u v ->
+    Pend s u v \/ Dead acc s u v \/
+    exists ru rv, ms_rec s u = Some ru /\ ms_rec s v = Some rv /\ ru <= rv /\
+                  Forall (fun x => rv <= qtime x) (q_items (ms_q s)).
+Proof.
+  intros acc s [clock [[Hf Hp] Hc]] u v Hu Hv Hin Hr.
+  destruct (c_ci _ _ _ _ Hc u v (fun F => F) Hu Hin Hr) as [H|[H|H]]; [left; exact H|right; left; exact H|].
+  right. right. unfold Blocked in H. destruct (f_K _ _ _ _ _ Hf v Hv) as [rv [Ev Hrv]]. rewrite Ev in H.
+  destruct (ms_rec s u) as [ru|] eqn:Eu; [|discriminate H]. cbn [xtlt] in H. apply Qltb_false in H.
+  exists ru, rv. split; [reflexivity|]. split; [exact Ev|]. split; [exact H|].
+  eapply Forall_impl; [|apply (f_q _ _ _ _ _ Hf)]. intros x Hx. cbn beta in Hx. lra.
+Qed.
+
 End Clock.
